@@ -7,11 +7,11 @@ import (
 
 // Concurrent presentations of one proof: exactly one is accepted.
 //
-//verif:sched quick=2 thorough=3
+//verif:sched quick=2 thorough=2
 //verif:race
 //verif:maxpaths quick=120000 thorough=600000
 //verif:stub crypto/hmac.New = verifC25HmacNew
-//verif:bound 2 (thorough: 3) goroutines present the same valid proof (byte-identical, or with the MAC's last base64url character re-spelled) through one ProofAuthenticate gate at one clock instant inside the window, plus one goroutine presenting a different nonce; ALL interleavings at synchronisation points with at most 2 (3) preemptions; the happens-before race detector watches the nonce cache; HMAC is the constant-tag model of the sequential harness
+//verif:bound 2 (thorough: 3) goroutines present the same valid proof (byte-identical, or with the MAC's last base64url character re-spelled) through one ProofAuthenticate gate at one clock instant inside the window, plus one goroutine presenting a different nonce; ALL interleavings at synchronisation points with at most 2 preemptions; the happens-before race detector watches the nonce cache; HMAC is the constant-tag model of the sequential harness
 func verifH_C25_concurrent_replay() {
 	cfg := ProofConfig{
 		Mode:        ProofModeRequire,
